@@ -88,21 +88,21 @@ def random_tree_node(rng, vars_pool, depth=0, maxdepth=4, wf=True, defined=None,
     if r < .75:
         c = rng.choice(atoms + defined[:1])
         if rng.random() < .15:
-            c += rng.choice(['~1', '~e.2'])
+            c += rng.choice(['~1', '~e.2', '~7,2'])
         bs.append(('/', c))
     elif r < .8 and not wf:
         bs.append(('/', None))
     for _ in range(rng.choice([0, 1, 2, 3]) if depth < maxdepth else rng.choice([0, 1])):
         role = rng.choice(roles)
         if rng.random() < .12:
-            role += rng.choice(['~1', '~e.2,3'])
+            role += rng.choice(['~1', '~e.2,3', '~e.12,10,11'])
         q = rng.random()
         if q < .4 and depth < maxdepth and (vars_pool or not wf):
             tgt = random_tree_node(rng, vars_pool, depth + 1, maxdepth, wf, defined, roles, atoms)
         elif q < .6 and defined:
             tgt = rng.choice(defined)           # re-entrancy / cycle to an enclosing node
             if rng.random() < .15:
-                tgt += '~3'
+                tgt += rng.choice(['~3', '~9,4'])
         elif q < .95:
             tgt = rng.choice(atoms)
             if rng.random() < .12:
@@ -119,7 +119,7 @@ def fresh_vars(n=40):
 
 # ---- graphs ----------------------------------------------------------------------------
 
-CONSTS = ['x', '"s"', 7, 0, 0.0, -1.5, None, 'k']
+CONSTS = ['x', '"s"', 7, 0, 0.0, -1.5, None, 'k', '"u\u2028v"', '"w\x0bx \x85y"']
 
 
 def random_connected_graph(rng, nvars=None, nextra=None, roles=None, consts=None, with_numbers=True):
